@@ -1,7 +1,15 @@
+import PybropsModel.Drv.C02
+import PybropsModel.Drv.C11
+import PybropsModel.Drv.C13
 import PybropsModel.Drv.C19
+import PybropsModel.Drv.C20
 
 namespace Drv
 def allOps : List (String × J.Op) := List.flatten [
-  Drv.C19.ops
+  Drv.C02.ops,
+  Drv.C11.ops,
+  Drv.C13.ops,
+  Drv.C19.ops,
+  Drv.C20.ops
 ]
 end Drv
